@@ -51,6 +51,8 @@ type Config struct {
 	Throttle0 bool `json:"throttling_rule_in_front,omitempty"`
 	// ArgKind: Go type of the metered argument values: "" string, "int64", "named" (a named int32 type)
 	ArgKind string `json:"arg_kind,omitempty"`
+	// KeyOnly (rules selecting by attachment key): requests carry the attachment and NO positional arguments
+	KeyOnly bool `json:"attachment_only_requests,omitempty"`
 }
 
 func (c Config) String() string { b, _ := json.Marshal(c); return string(b) }
@@ -190,7 +192,7 @@ func (s *scen) ruleList() []*hotspot.Rule {
 
 func (s *scen) Reset() {
 	env.ResetAll(env.DefaultGeometry, 1700000000000)
-	argKind = s.cfg.ArgKind
+	argKind, keyOnly = s.cfg.ArgKind, s.cfg.KeyOnly
 	if s.cfg.R1b != nil {
 		s.r1bTh = s.cfg.R1b.Threshold
 	}
@@ -259,12 +261,17 @@ func arg(val string) interface{} {
 
 func argName(val string) string { return fmt.Sprint(arg(val)) }
 
+// keyOnly mirrors Config.KeyOnly of the scenario being run (set in Reset).
+var keyOnly bool
+
 func entryOpts(spec RuleSpec, val string) []sentinel.EntryOption {
 	var opts []sentinel.EntryOption
 	if val == "" {
 		return opts
 	}
-	if spec.ByKey {
+	if spec.ByKey && keyOnly {
+		opts = append(opts, sentinel.WithAttachment("k", arg(val)))
+	} else if spec.ByKey {
 		opts = append(opts, sentinel.WithAttachment("k", arg(val)), sentinel.WithArgs("decoy"))
 	} else if spec.Index == -1 {
 		opts = append(opts, sentinel.WithArgs("decoy", arg(val)))
@@ -496,6 +503,7 @@ func configs() []Config {
 		{R1: sp(1, map[string]int64{"B": 2}, false, 0), Throttle0: true},
 		{R1: sp(2, nil, false, 0), ArgKind: "int64"},
 		{R1: sp(1, nil, true, 0), ArgKind: "named"},
+		{R1: sp(2, map[string]int64{"A": 1}, true, 0), KeyOnly: true},
 		{R1: sp(2, nil, false, -1), R3: &r3, ArgKind: "named"},
 	}
 }
